@@ -1,12 +1,12 @@
 package main
 
 import (
-	"io"
 	"bytes"
 	"context"
 	"encoding/base64"
 	"encoding/binary"
 	"fmt"
+	"io"
 	"mime"
 	"net/http"
 	"net/http/httptest"
@@ -310,6 +310,69 @@ func runC11(o *hx.Out, r *hx.Rand, thorough bool) {
 			}
 		}
 	}
+	// a server with a base path: names outside it are unknown, whatever else they look like
+	{
+		bsrv := httpgrpc.NewServer(httpgrpc.WithBasePath("/api/v1/"))
+		bsrv.RegisterService(desc, svc)
+		for _, p := range []string{"/verif.Svc/U", "/verif.Svc/BD", "/verif.Svc/SS", "/api/verif.Svc/U", "/v1/verif.Svc/U", "/api/v1verif.Svc/U", "/api/v2/verif.Svc/U"} {
+			for _, ct := range []string{httpgrpc.UnaryRpcContentType_V1, httpgrpc.StreamRpcContentType_V1} {
+				req := httptest.NewRequest("POST", p, bytes.NewReader(pb))
+				req.Header.Set("Content-Type", ct)
+				rec := httptest.NewRecorder()
+				calls = 0
+				bsrv.ServeHTTP(rec, req)
+				o.Case("outside_base_path", fmt.Sprintf("NotFoundCase %d %d", rec.Code, calls), map[string]interface{}{"server_base_path": "/api/v1/", "path": p, "content_type": ct, "status": rec.Code, "user_calls": calls})
+			}
+		}
+		// control: inside the base path the handler runs
+		req := httptest.NewRequest("POST", "/api/v1/verif.Svc/U", bytes.NewReader(pb))
+		req.Header.Set("Content-Type", httpgrpc.UnaryRpcContentType_V1)
+		rec := httptest.NewRecorder()
+		calls, hcode = 0, 0
+		bsrv.ServeHTTP(rec, req)
+		if rec.Code != 200 || calls != 1 {
+			o.Violate("a server with a base path did not serve a registered method under it", map[string]interface{}{"path": "/api/v1/verif.Svc/U", "status": rec.Code, "user_calls": calls}, rec.Code, 200)
+		}
+	}
+	// two JSON unary calls whose replies overlap: the second request is served from inside the first
+	// reply's Write (as a concurrent request would be between encoding and writing); each caller must get
+	// its own reply, in JSON as in protobuf
+	for _, ct := range []string{httpgrpc.ApplicationJson, httpgrpc.UnaryRpcContentType_V1} {
+		mk := func(count int32) *http.Request {
+			var body []byte
+			if ct == httpgrpc.ApplicationJson {
+				body = []byte(fmt.Sprintf(`{"count": %d, "payload": "%s"}`, count, base64.StdEncoding.EncodeToString(bytes.Repeat([]byte{byte(count)}, int(count)))))
+			} else {
+				body, _ = proto.Marshal(&hx.Msg{Count: count})
+			}
+			rq := httptest.NewRequest("POST", "/verif.Svc/U", bytes.NewReader(body))
+			rq.Header.Set("Content-Type", ct)
+			return rq
+		}
+		decode := func(b []byte) int32 {
+			m := &hx.Msg{}
+			if ct == httpgrpc.ApplicationJson {
+				if protojson.Unmarshal(b, m) != nil {
+					return -1
+				}
+			} else if proto.Unmarshal(b, m) != nil {
+				return -1
+			}
+			return m.Count
+		}
+		hcode = 0
+		inner := httptest.NewRecorder()
+		outer := &nestingWriter{ResponseRecorder: httptest.NewRecorder(), nested: func() { hu(inner, mk(200)) }}
+		hu(outer, mk(3))
+		got1, got2 := decode(outer.Body.Bytes()), decode(inner.Body.Bytes())
+		ok := outer.Code == 200 && inner.Code == 200 && got1 == 3 && got2 == 200
+		d := map[string]interface{}{"content_type": ct, "first_reply_count": got1, "second_reply_count": got2, "first_status": outer.Code, "second_status": inner.Code,
+			"scenario": "the second request is handled while the first reply is being written"}
+		if !ok {
+			o.Violate("overlapping unary calls did not each get their own reply", d, []int32{got1, got2}, []int32{3, 200})
+		}
+		o.Case("overlapping_replies", fmt.Sprintf("GoSide %s %s", hx.Str("overlapping replies, "+ct), hx.B(ok)), d)
+	}
 	// unknown paths through the server's mux
 	for _, p := range []string{"/", "/verif.Svc", "/verif.Svc/", "/verif.Svc/Nope", "/other.Svc/U", "/verif.Svc/U/x", "/verif.svc/u"} {
 		req := httptest.NewRequest("POST", p, bytes.NewReader(pb))
@@ -320,4 +383,19 @@ func runC11(o *hx.Out, r *hx.Rand, thorough bool) {
 		o.Case("unknown_path", fmt.Sprintf("NotFoundCase %d %d", rec.Code, calls), map[string]interface{}{"path": p, "status": rec.Code, "user_calls": calls})
 	}
 	o.Shard = 200
+}
+
+// nestingWriter runs nested() once, at the first Write, before the bytes are written
+type nestingWriter struct {
+	*httptest.ResponseRecorder
+	nested func()
+	done   bool
+}
+
+func (w *nestingWriter) Write(b []byte) (int, error) {
+	if !w.done {
+		w.done = true
+		w.nested()
+	}
+	return w.ResponseRecorder.Write(b)
 }
